@@ -31,6 +31,17 @@ def regression_with_report():
     return lsl.GraphBuilder().add(y, resid).build_model()
 
 
+def int_exposure_model():
+    """a data node that was initialised with integers (stored dtype int32) and is part of the position"""
+    import liesel.model as lsl
+    import tensorflow_probability.substrates.jax.distributions as tfd
+    expo = lsl.Var(jnp.array([1, 2, 3]), name="exposure")
+    rate = lsl.param(0.7, lsl.Dist(tfd.Gamma, concentration=2.0, rate=1.0), name="rate")
+    lam = lsl.Var(lsl.Calc(lambda e, r: e * r, expo, rate), name="lam")
+    y = lsl.obs(jnp.array([0.5, 1.5, 2.5]), lsl.Dist(tfd.Normal, loc=lam, scale=1.0), name="y")
+    return lsl.GraphBuilder().add(y).build_model()
+
+
 def _reg_goose():
     return regression_with_report()
 
@@ -47,6 +58,8 @@ SCENARIOS = {
     "regression+report/GooseModel": (regression_with_report, ["beta", "sigma_transformed"], ["beta"], False),
     "regression+report/GooseModel/auto_update=False": (regression_with_report, ["beta", "sigma_transformed"], ["sigma_transformed"], False),
     "regression+report/auto_update=False": (regression_with_report, ["beta", "sigma_transformed"], ["beta"], True),
+    # a position may hold real values for a node that was initialised with integers: they are assigned as they are (no cast back)
+    "int-initialised node in the position": (int_exposure_model, ["exposure", "rate"], ["exposure"], False),
 }
 
 
@@ -258,7 +271,7 @@ def simple_interfaces(chk):
 def main():
     chk = Check("C03")
     names = list(SCENARIOS) if chk.tier == "thorough" else ["regression+report/same-state", "regression+report/node-names", "weak-hierarchy", "user-supplied totals", "auto_transform",
-                                                             "regression+report/GooseModel", "regression+report/GooseModel/auto_update=False", "regression+report/auto_update=False"]
+                                                             "regression+report/GooseModel", "regression+report/GooseModel/auto_update=False", "regression+report/auto_update=False", "int-initialised node in the position"]
     obs = []
     for nm in names:
         res = chk.guarded(f"{nm}:trace", f"[{nm}] tracing the interface calls", liesel_scenario, chk, nm)
